@@ -1,5 +1,6 @@
 import GnpyModel
 import GnpyProofs.Lemmas.SlotsStep
+import GnpyProofs.Lemmas.SlotsHistory
 /- Property theorems for C14 — spectrum assignment never double-books a slot and honours what the user fixed.
    Model: GnpyModel/Slots.lean (`step` = one iteration of `pth_assign_spectrum`, `run` = a history of calls).
    Helper lemmas: GnpyProofs/Lemmas/{PyList,Slots,SlotsStep}.lean. -/
@@ -123,5 +124,136 @@ theorem enough_slots (pol : Policy) (s s' : List Oms) (r : Request) (out : List 
     simp only [pure, Except.pure, Except.ok.injEq, Prod.mk.injEq] at a0
     refine ⟨hb, ?_⟩
     rw [a0.2]; exact a6
+
+
+/-- a well-formed state stays well formed -/
+theorem step_preserves_wf (pol : Policy) (s s' : List Oms) (r : Request) (o : Outcome) (hs : StateWF s)
+    (hnd : r.pathOms.Nodup) (h : step pol s r = .ok (s', o)) : StateWF s' := by
+  cases o with
+  | skipped => rw [step_blocked_unchanged pol s s' r _ h (by intro nm hh; cases hh)]; exact hs
+  | blocked reason => rw [step_blocked_unchanged pol s s' r _ h (by intro nm hh; cases hh)]; exact hs
+  | accepted out =>
+    obtain ⟨_, m2, nb, m3⟩ := step_marks_exactly pol s s' r out hs hnd h
+    exact StateWF_served s s' hs r.pathOms out r.id nb m2 m3
+
+/-- The invariant of every history of `pth_assign_spectrum` calls (induction over ANY request list). -/
+theorem run_spec (pol : Policy) : ∀ (rs : List Request) (s s' : List Oms) (os : List Outcome), StateWF s →
+    (∀ r ∈ rs, r.pathOms.Nodup) → run pol s rs = .ok (s', os) →
+    StateWF s' ∧ s'.length = s.length ∧
+    (∀ g ∈ grants rs os, 0 < g.m ∧ ∀ k ∈ g.path, ∃ o, s[k]? = some o ∧ RangeOK o.bm g.n g.m) ∧
+    (grants rs os).Pairwise Grant.Compatible ∧
+    (∀ (k : Nat) (o : Oms), s[k]? = some o → ∃ o' : Oms, s'[k]? = some o' ∧ ∀ x : Int, o'.bm.cellAt x =
+      (o.bm.cellAt x).map (fun c => if (grants rs os).any (fun g => g.covers k x) then Cell.occupied else c)) := by
+  intro rs
+  induction rs with
+  | nil =>
+    intro s s' os hs _ h
+    have : s' = s ∧ os = [] := by
+      simp only [run, pure, Except.pure, Except.ok.injEq, Prod.mk.injEq] at h
+      exact ⟨h.1.symm, h.2.symm⟩
+    obtain ⟨rfl, rfl⟩ := this
+    refine ⟨hs, rfl, by simp [grants], by simp [grants], ?_⟩
+    intro k o ho
+    refine ⟨o, ho, fun x => ?_⟩
+    cases o.bm.cellAt x <;> simp [grants]
+  | cons r rs ih =>
+    intro s s' os hs hnd h
+    obtain ⟨s1, o, os', h1, h2, rfl⟩ := run_cons pol s s' r rs os h
+    have hndr : r.pathOms.Nodup := hnd r List.mem_cons_self
+    have hs1 : StateWF s1 := step_preserves_wf pol s s1 r o hs hndr h1
+    obtain ⟨i1, i2, i4, i5, i6⟩ := ih s1 s' os' hs1 (fun q hq => hnd q (List.mem_cons_of_mem _ hq)) h2
+    by_cases hacc : ∃ out, o = Outcome.accepted out
+    · obtain ⟨out, rfl⟩ := hacc
+      have F := step_accept_free pol s s1 r out hs hndr h1
+      have Dj := step_slots_disjoint pol s s1 r out hs hndr h1
+      obtain ⟨m1, m2, nb, m3⟩ := step_marks_exactly pol s s1 r out hs hndr h1
+      have hpos : ∀ nm ∈ out, 0 < nm.2 := fun nm hnm => (F nm hnm).1
+      -- a later grant, seen from the state before this request
+      have later : ∀ g ∈ grants rs os', 0 < g.m ∧ (∀ k ∈ g.path, ∃ o, s[k]? = some o ∧ RangeOK o.bm g.n g.m) ∧
+          ((∃ k, k ∈ r.pathOms ∧ k ∈ g.path) → ∀ nm ∈ out, Disj nm (g.n, g.m)) := by
+        intro g hg
+        obtain ⟨gm, gk⟩ := i4 g hg
+        refine ⟨gm, ?_, ?_⟩
+        · intro k hk
+          obtain ⟨o1, q1, q2⟩ := gk k hk
+          by_cases hp : k ∈ r.pathOms
+          · obtain ⟨o0, p1, p2⟩ := m3 k hp
+            rw [p2] at q1; cases q1
+            exact ⟨o0, p1, (RangeOK_markAll o0.bm out g.n g.m gm hpos q2).1⟩
+          · rw [m2 k hp] at q1
+            exact ⟨o1, q1, q2⟩
+        · rintro ⟨k, hp, hk⟩ nm hnm
+          obtain ⟨o1, q1, q2⟩ := gk k hk
+          obtain ⟨o0, p1, p2⟩ := m3 k hp
+          rw [p2] at q1; cases q1
+          exact (RangeOK_markAll o0.bm out g.n g.m gm hpos q2).2 nm hnm
+      have hgr : grants (r :: rs) (Outcome.accepted out :: os') =
+          out.map (fun p => (⟨r.pathOms, p.1, p.2⟩ : Grant)) ++ grants rs os' := rfl
+      refine ⟨i1, by omega, ?_, ?_, ?_⟩
+      · intro g hg
+        rw [hgr] at hg
+        rcases List.mem_append.1 hg with hg | hg
+        · obtain ⟨nm, hnm, rfl⟩ := List.mem_map.1 hg
+          obtain ⟨f1, f2⟩ := F nm hnm
+          refine ⟨f1, fun k hk => ?_⟩
+          obtain ⟨o0, p1, p2, _⟩ := f2 k hk
+          exact ⟨o0, p1, p2⟩
+        · exact ⟨(later g hg).1, (later g hg).2.1⟩
+      · rw [hgr, List.pairwise_append]
+        refine ⟨?_, i5, ?_⟩
+        · rw [List.pairwise_map]
+          refine List.Pairwise.imp ?_ Dj
+          intro a b hd _
+          exact hd
+        · intro g1 hg1 g2 hg2
+          obtain ⟨nm, hnm, rfl⟩ := List.mem_map.1 hg1
+          intro hshare
+          exact (later g2 hg2).2.2 hshare nm hnm
+      · intro k o0 ho0
+        by_cases hp : k ∈ r.pathOms
+        · obtain ⟨o0', p1, p2⟩ := m3 k hp
+          rw [ho0] at p1; cases p1
+          obtain ⟨o', q1, q2⟩ := i6 k _ p2
+          refine ⟨o', q1, fun x => ?_⟩
+          rw [q2 x, served_cellAt, hgr, List.any_append, any_grantsOf_accepted]
+          cases o0.bm.cellAt x with
+          | none => rfl
+          | some c =>
+            simp only [Option.map_some, hp, decide_true, Bool.true_and]
+            cases covers out x <;> cases (grants rs os').any (fun g => g.covers k x) <;> simp
+        · have p2 : s1[k]? = some o0 := by rw [m2 k hp]; exact ho0
+          obtain ⟨o', q1, q2⟩ := i6 k _ p2
+          refine ⟨o', q1, fun x => ?_⟩
+          rw [q2 x, hgr, List.any_append, any_grantsOf_accepted]
+          simp [hp]
+    · have hno : ∀ nm, o ≠ Outcome.accepted nm := fun nm hh => hacc ⟨nm, hh⟩
+      have hsame : s1 = s := step_blocked_unchanged pol s s1 r o h1 hno
+      subst hsame
+      have hgr : grants (r :: rs) (o :: os') = grants rs os' := by
+        cases o with
+        | skipped => rfl
+        | blocked reason => rfl
+        | accepted out => exact absurd rfl (hno out)
+      rw [hgr]
+      exact ⟨i1, i2, i4, i5, i6⟩
+
+/-- **history_no_overlap.** Across any sequence of requests (any mix of fixed/free N and M, blocked or accepted, one or
+    both directions, any policy) two granted slot ranges that share an OMS never share a slot; and every granted range
+    was free in the initial state on each of its OMS, inside their guard-band limits (so it never sits on a slot that
+    was occupied or unusable before the history started). -/
+theorem history_no_overlap (pol : Policy) (rs : List Request) (s s' : List Oms) (os : List Outcome) (hs : StateWF s)
+    (hnd : ∀ r ∈ rs, r.pathOms.Nodup) (h : run pol s rs = .ok (s', os)) :
+    (grants rs os).Pairwise Grant.Compatible ∧
+    ∀ g ∈ grants rs os, 0 < g.m ∧ ∀ k ∈ g.path, ∃ o, s[k]? = some o ∧ RangeOK o.bm g.n g.m :=
+  ⟨(run_spec pol rs s s' os hs hnd h).2.2.2.1, (run_spec pol rs s s' os hs hnd h).2.2.1⟩
+
+/-- **occupancy_is_union.** After any history the map of every OMS is the initial map with exactly the slots of the
+    accepted grants that cross this OMS turned to occupied: nothing else changes, nothing is freed, unusable stays
+    unusable. -/
+theorem occupancy_is_union (pol : Policy) (rs : List Request) (s s' : List Oms) (os : List Outcome) (hs : StateWF s)
+    (hnd : ∀ r ∈ rs, r.pathOms.Nodup) (h : run pol s rs = .ok (s', os)) :
+    s'.length = s.length ∧ ∀ (k : Nat) (o : Oms), s[k]? = some o → ∃ o' : Oms, s'[k]? = some o' ∧ ∀ x : Int, o'.bm.cellAt x =
+      (o.bm.cellAt x).map (fun c => if (grants rs os).any (fun g => g.covers k x) then Cell.occupied else c) :=
+  ⟨(run_spec pol rs s s' os hs hnd h).2.1, (run_spec pol rs s s' os hs hnd h).2.2.2.2⟩
 
 end Gnpy.Slots
